@@ -242,3 +242,77 @@ func Materialize(root string, nodes []Node) (*Tree, error) {
 	}
 	return t, nil
 }
+
+// Mutate applies one change to the tree on disk and in the harness's model and
+// returns the function that undoes it. Kinds: add (new file next to rel),
+// remove, rewrite (other bytes, same length and mtime), chmod, retime.
+func (t *Tree) Mutate(kind, rel string) (undo func(), err error) {
+	p := filepath.Join(t.Root, rel)
+	setTimes := func(path string, mt time.Time) {
+		ts := []unix.Timespec{unix.NsecToTimespec(mt.UnixNano()), unix.NsecToTimespec(mt.UnixNano())}
+		unix.UtimesNanoAt(unix.AT_FDCWD, path, ts, unix.AT_SYMLINK_NOFOLLOW)
+	}
+	parent := filepath.Dir(p)
+	pst, _ := os.Stat(parent)
+	restoreParent := func() {
+		if pst != nil {
+			setTimes(parent, pst.ModTime())
+		}
+	}
+	switch kind {
+	case "add":
+		n := &Node{Rel: filepath.Clean(rel), Kind: "file", Mode: 0o640, MTime: T0.Add(12345 * time.Hour), Data: Noise(321, 77)}
+		if err := os.WriteFile(p, n.Data, 0o600); err != nil {
+			return nil, err
+		}
+		os.Chmod(p, n.Mode)
+		setTimes(p, n.MTime)
+		restoreParent()
+		t.Nodes[n.Rel] = n
+		return func() { os.Remove(p); delete(t.Nodes, n.Rel); restoreParent() }, nil
+	case "remove":
+		n := t.Nodes[filepath.Clean(rel)]
+		if n == nil || n.Kind != "file" {
+			return nil, fmt.Errorf("remove: %s is not a file of the tree", rel)
+		}
+		if err := os.Remove(p); err != nil {
+			return nil, err
+		}
+		restoreParent()
+		delete(t.Nodes, n.Rel)
+		return func() {
+			os.WriteFile(p, n.Data, 0o600)
+			os.Chmod(p, n.Mode)
+			setTimes(p, n.MTime)
+			t.Nodes[n.Rel] = n
+			restoreParent()
+		}, nil
+	case "rewrite", "chmod", "retime":
+		n := t.Nodes[filepath.Clean(rel)]
+		if n == nil || n.Kind != "file" {
+			return nil, fmt.Errorf("%s: %s is not a file of the tree", kind, rel)
+		}
+		old := *n
+		switch kind {
+		case "rewrite":
+			n.Data = Noise(len(old.Data), 4242)
+			os.WriteFile(p, n.Data, 0o600)
+			os.Chmod(p, n.Mode)
+		case "chmod":
+			n.Mode = 0o751
+			os.Chmod(p, n.Mode)
+		case "retime":
+			n.MTime = T0.Add(23456 * time.Hour)
+		}
+		setTimes(p, n.MTime)
+		restoreParent()
+		return func() {
+			*n = old
+			os.WriteFile(p, n.Data, 0o600)
+			os.Chmod(p, n.Mode)
+			setTimes(p, n.MTime)
+			restoreParent()
+		}, nil
+	}
+	return nil, fmt.Errorf("unknown mutation %s", kind)
+}
